@@ -53,6 +53,41 @@ func calleeName(o types.Object) string {
 	return "<dynamic>"
 }
 
+// writesToMemoryOnly: a write whose destination is an in-memory buffer cannot fail — the Write* methods of bytes.Buffer
+// and strings.Builder always return a nil error (documented), and fmt.Fprint/Fprintf/Fprintln return the error of the
+// destination's Write, so with a *bytes.Buffer or *strings.Builder destination (by static type) they cannot fail either.
+func writesToMemoryOnly(info *types.Info, c *ast.CallExpr, o types.Object) bool {
+	fn, ok := o.(*types.Func)
+	if !ok || fn.Pkg() == nil {
+		return false
+	}
+	isMem := func(t types.Type) bool {
+		if p, ok := t.(*types.Pointer); ok {
+			t = p.Elem()
+		}
+		n, ok := t.(*types.Named)
+		if !ok || n.Obj().Pkg() == nil {
+			return false
+		}
+		q := n.Obj().Pkg().Path() + "." + n.Obj().Name()
+		return q == "bytes.Buffer" || q == "strings.Builder"
+	}
+	sig := fn.Type().(*types.Signature)
+	if sig.Recv() != nil {
+		switch fn.Name() {
+		case "Write", "WriteString", "WriteByte", "WriteRune":
+			return isMem(sig.Recv().Type())
+		}
+		return false
+	}
+	if fn.Pkg().Path() == "fmt" && (fn.Name() == "Fprintf" || fn.Name() == "Fprint" || fn.Name() == "Fprintln") && len(c.Args) > 0 {
+		if t := info.TypeOf(c.Args[0]); t != nil {
+			return isMem(t)
+		}
+	}
+	return false
+}
+
 // errIndex returns the index of the trailing error result of a call, or -1.
 func errIndex(info *types.Info, c *ast.CallExpr) (int, int) {
 	t := info.TypeOf(c)
@@ -109,6 +144,11 @@ func g1Body(r *Repo, rep *Report, b *Body) {
 		}
 		o := callee(info, c)
 		rep.distinct("G1@" + r.pos(c.Pos()))
+		if writesToMemoryOnly(info, c, o) {
+			// documented never to return a non-nil error: there is nothing to drop
+			rep.pass("G1")
+			return true
+		}
 		allowKey := calleeName(o) + "|" + b.Name
 		par := b.Parent[c]
 		for {
